@@ -166,3 +166,121 @@ Proof.
     apply (zloop_resume _ _ _ _ _ _ _ Hp H1 _ _ _ _ _ Hc Nc H2 N2).
 Qed.
 End Resume.
+
+(* ---------- the converse direction: a request that succeeds as a whole succeeds up to any point on the way ---------- *)
+Section Prefix.
+Variables (rule : eofrule) (hint : N).
+Notation run := (ideal rule hint).
+Ltac fold_wr H := repeat match type of H with context [{| irest := irest ?s; iout := rev_append (win_bytes (N.to_nat ?i) ?w ?o []) (iout ?s) |}] =>
+  change {| irest := irest s; iout := rev_append (win_bytes (N.to_nat i) w o []) (iout s) |} with (wr i w o s) in H end.
+
+Lemma zloop_prefix : forall F n b st i z i', 0 < n ->
+  run (zloop F (n + b) st) i = (SVal (OK, false, z), i') ->
+  exists z1 i1, run (zloop F n st) i = (SVal (OK, false, z1), i1).
+Proof.
+  induction F as [|F IH]; intros n b st i z i' Hn H.
+  - rewrite zloop_0 in H. cbn [ideal] in H. inversion H.
+  - rewrite zloop_S, (ideal_sbind rule hint) in H. rewrite zloop_S, (ideal_sbind rule hint).
+    destruct (run (zframe st) i) as [[x|e] j]; [|inversion H].
+    destruct x as [[c|e]|[u s2]]; try (cbn [ideal] in H; inversion H; fail).
+    cbv zeta in H. cbv zeta. cbn [ideal] in H. cbn [ideal]. fold_wr H.
+    destruct (N.eqb_spec (n - N.min n (bout s2)) 0) as [E|E].
+    + eexists. eexists. reflexivity.
+    + assert (Hgt : bout s2 < n) by lia.
+      rewrite N.min_r in H by lia. replace (n + b - bout s2 =? 0) with false in H by (symmetry; apply N.eqb_neq; lia).
+      replace (n + b - bout s2) with ((n - bout s2) + b) in H by lia.
+      rewrite N.min_r by lia.
+      match goal with |- exists z1 i1, run (zloop F (n - bout s2) s2) ?ii = _ => fold_wr H; apply (IH (n - bout s2) b s2 ii z i'); [lia|exact H] end.
+Qed.
+
+Lemma zcall_prefix a b z i zf i' : zo z <= zend z ->
+  run (zcall (a + b) z) i = (SVal (OK, false, zf), i') ->
+  exists z1 i1, run (zcall a z) i = (SVal (OK, false, z1), i1).
+Proof.
+  intros Hz H.
+  assert (He : zerr z = 0).
+  { destruct (N.eqb_spec (zerr z) 0) as [E|E]; [exact E|]. unfold zcall in H. replace (zerr z =? 0) with false in H by (symmetry; apply N.eqb_neq; exact E).
+    cbn in H. inversion H. unfold OK in *. congruence. }
+  rewrite (zcall_unfold rule hint) in H by exact He. rewrite (zcall_unfold rule hint) by exact He. cbv zeta in H. cbv zeta.
+  set (av := zend z - zo z) in *.
+  destruct (N.le_gt_cases a av) as [Hin|Hout].
+  - rewrite N.min_r by exact Hin. replace (a - a =? 0) with true by (symmetry; apply N.eqb_eq; lia). eexists. eexists. reflexivity.
+  - rewrite N.min_l by lia. replace (a - av =? 0) with false by (symmetry; apply N.eqb_neq; lia).
+    rewrite N.min_l in H by lia. replace (a + b - av =? 0) with false in H by (symmetry; apply N.eqb_neq; lia).
+    replace (a + b - av) with ((a - av) + b) in H by lia.
+    assert (Hp : 0 < a - av) by lia. exact (zloop_prefix _ _ _ _ _ _ _ Hp H).
+Qed.
+End Prefix.
+
+(* the second half of a split request is determined by the whole request (no assumption on the second run) *)
+Section Split.
+Variables (rule : eofrule) (hint : N).
+Notation run := (ideal rule hint).
+Ltac fold_wr H := repeat match type of H with context [{| irest := irest ?s; iout := rev_append (win_bytes (N.to_nat ?i) ?w ?o []) (iout ?s) |}] =>
+  change {| irest := irest s; iout := rev_append (win_bytes (N.to_nat i) w o []) (iout s) |} with (wr i w o s) in H end.
+Ltac ifred H := repeat match type of H with
+  | context [if true then ?a else ?b] => change (if true then a else b) with a in H
+  | context [if false then ?a else ?b] => change (if false then a else b) with b in H end; rewrite ?(run_ret rule hint) in H.
+
+Lemma zloop_split : forall f n b st i z1 i1, 0 < n ->
+  run (zloop f n st) i = (SVal (OK, false, z1), i1) ->
+  forall F rc ic, (F <= 70000)%nat -> run (zloop F (n + b) st) i = (rc, ic) -> nofuel rc -> run (zcall b z1) i1 = (rc, ic).
+Proof.
+  induction f as [|f IH]; intros n b st i z1 i1 Hn H1 F rc ic HF Hc Nc.
+  - rewrite zloop_0, (run_ret rule hint) in H1. inversion H1.
+  - destruct F as [|F]; [rewrite zloop_0, (run_ret rule hint) in Hc; inversion Hc; subst; unfold nofuel in Nc; congruence|].
+    rewrite zloop_S, (ideal_sbind rule hint) in H1, Hc.
+    destruct (run (zframe st) i) as [[x|e] i']; [|inversion H1].
+    destruct x as [[c|e]|[u s2]]; try (rewrite (run_ret rule hint) in H1; inversion H1; fail).
+    cbv zeta in H1, Hc. rewrite (run_write rule hint) in H1, Hc. fold_wr H1. fold_wr Hc.
+    destruct (N.eqb_spec (n - N.min n (bout s2)) 0) as [E|E]; ifred H1.
+    + assert (Hle : n <= bout s2) by lia. rewrite N.min_l in H1 by exact Hle.
+      apply pair_equal_spec in H1 as [Hv Hi]; subst i1; injection Hv as Hv; subst z1.
+      rewrite (zcall_unfold rule hint) by reflexivity. cbn [zs zo zend]. cbv zeta.
+      replace (0 + n) with n by lia.
+      destruct (N.le_gt_cases (n + b) (bout s2)) as [Hall|Hmore].
+      * rewrite N.min_l in Hc by exact Hall. replace (n + b - (n + b) =? 0) with true in Hc by (symmetry; apply N.eqb_eq; lia). ifred Hc.
+        rewrite N.min_r by lia. replace (b - b =? 0) with true by (symmetry; apply N.eqb_eq; lia).
+        rewrite wr_wr0. exact Hc.
+      * rewrite N.min_r in Hc by lia. replace (n + b - bout s2 =? 0) with false in Hc by (symmetry; apply N.eqb_neq; lia). ifred Hc.
+        rewrite N.min_l by lia. replace (b - (bout s2 - n) =? 0) with false by (symmetry; apply N.eqb_neq; lia).
+        rewrite wr_wr0. replace (n + (bout s2 - n)) with (bout s2) by lia.
+        replace (b - (bout s2 - n)) with (n + b - bout s2) by lia.
+        apply (zloop_mono rule hint _ _ _ _ _ _ Hc Nc). lia.
+    + assert (Hgt : bout s2 < n) by lia. rewrite N.min_r in H1 by lia. rewrite N.min_r in Hc by lia.
+      replace (n + b - bout s2 =? 0) with false in Hc by (symmetry; apply N.eqb_neq; lia). ifred Hc.
+      replace (n + b - bout s2) with ((n - bout s2) + b) in Hc by lia.
+      assert (Hp : 0 < n - bout s2) by lia.
+      apply (IH (n - bout s2) b s2 _ z1 i1 Hp H1 F rc ic ltac:(lia) Hc Nc).
+Qed.
+
+Theorem zcall_split a b z i z1 i1 rc ic : zo z <= zend z ->
+  run (zcall a z) i = (SVal (OK, false, z1), i1) ->
+  run (zcall (a + b) z) i = (rc, ic) -> nofuel rc ->
+  run (zcall b z1) i1 = (rc, ic).
+Proof.
+  intros Hz H1 Hc Nc.
+  assert (He : zerr z = 0).
+  { destruct (N.eqb_spec (zerr z) 0) as [E|E]; [exact E|]. unfold zcall in H1. replace (zerr z =? 0) with false in H1 by (symmetry; apply N.eqb_neq; exact E).
+    cbn in H1. inversion H1. unfold OK in *. congruence. }
+  rewrite (zcall_unfold rule hint) in H1, Hc by exact He. cbv zeta in H1, Hc.
+  set (av := zend z - zo z) in *.
+  destruct (N.le_gt_cases a av) as [Hin|Hout].
+  - rewrite N.min_r in H1 by exact Hin. replace (a - a =? 0) with true in H1 by (symmetry; apply N.eqb_eq; lia). ifred H1.
+    apply pair_equal_spec in H1 as [Hv Hi]; subst i1; injection Hv as Hv; subst z1.
+    rewrite (zcall_unfold rule hint) by reflexivity. cbn [zs zo zend]. cbv zeta. rewrite wr_wr.
+    replace (zend z - (zo z + a)) with (av - a) by lia.
+    destruct (N.le_gt_cases (a + b) av) as [Hall|Hmore].
+    + rewrite N.min_r in Hc by exact Hall. replace (a + b - (a + b) =? 0) with true in Hc by (symmetry; apply N.eqb_eq; lia). ifred Hc.
+      rewrite N.min_r by lia. replace (b - b =? 0) with true by (symmetry; apply N.eqb_eq; lia).
+      rewrite <- N.add_assoc. exact Hc.
+    + rewrite N.min_l in Hc by lia. replace (a + b - av =? 0) with false in Hc by (symmetry; apply N.eqb_neq; lia). ifred Hc.
+      rewrite N.min_l by lia. replace (b - (av - a) =? 0) with false by (symmetry; apply N.eqb_neq; lia).
+      replace (a + (av - a)) with av by lia. replace (b - (av - a)) with (a + b - av) by lia. exact Hc.
+  - rewrite N.min_l in H1 by lia. replace (a - av =? 0) with false in H1 by (symmetry; apply N.eqb_neq; lia). ifred H1.
+    rewrite N.min_l in Hc by lia. replace (a + b - av =? 0) with false in Hc by (symmetry; apply N.eqb_neq; lia). ifred Hc.
+    replace (a + b - av) with ((a - av) + b) in Hc by lia.
+    assert (Hp : 0 < a - av) by lia.
+    apply (zloop_split _ _ _ _ _ _ _ Hp H1 70000%nat rc ic (Nat.le_refl _) Hc Nc).
+Qed.
+End Split.
